@@ -31,7 +31,9 @@ Lemma deadw_not_strong : forall s x k i o, Inv s -> x < s_n s -> deadw (s_thr s 
   dget (s_strong s) i = Some o -> k <> i.
 Proof.
   intros s x k i o Hinv Hx D S E. subst k. destruct (inv_deadw s Hinv x i Hx D) as (W & _).
-  apply W. apply (inv_disj s Hinv). congruence.
+  apply W. eapply (disj_strict s x Hinv Hx); eauto.
+  - eapply deadw_holds; eauto.
+  - unfold deadw in D. destruct (t_pc (s_thr s x)); try discriminate; reflexivity.
 Qed.
 
 Lemma absent_key_holds : forall th k, absent_key th = Some k -> holds (t_pc th) = true.
@@ -45,7 +47,8 @@ Lemma case_F105_hit : forall s t o, Inv s -> t < s_n s -> t_pc (s_thr s t) = F10
   Inv (put_thr s t (finish (s_thr s t) (RObj o (t_id (s_thr s t)) (s_epoch s (t_id (s_thr s t)))))).
 Proof.
   intros s t o Hinv Ht Hpc S.
-  eapply inv_finish with (s := s) (t := t); try reflexivity; try assumption.
+  eapply inv_finish with (s := s) (t := t); try reflexivity; try assumption;
+    try (match goal with |- xwinpc _ = false => first [rewrite Hpc; reflexivity | destruct Hpc as [-> | ->]; reflexivity] end).
   - intros o1 _. reflexivity.
   - apply lc_same; [reflexivity | simpl; now rewrite Hpc].
   - apply wc_same; [reflexivity |]. intros o1 _. unfold wl. simpl. rewrite Hpc. simpl.
@@ -81,7 +84,8 @@ Proof.
   intros s t Hinv Ht Hpc.
   assert (V : t_val (s_thr s t) <> None) by (apply (inv_valdef s Hinv t Ht); destruct Hpc as [-> | ->]; reflexivity).
   destruct (t_val (s_thr s t)) as [o |] eqn:E; [| congruence].
-  eapply inv_finish with (s := s) (t := t); try reflexivity; try assumption.
+  eapply inv_finish with (s := s) (t := t); try reflexivity; try assumption;
+    try (match goal with |- xwinpc _ = false => first [rewrite Hpc; reflexivity | destruct Hpc as [-> | ->]; reflexivity] end).
   - intros o1 _. reflexivity.
   - apply lc_same; [reflexivity | simpl; destruct Hpc as [-> | ->]; reflexivity].
   - apply wc_same; [reflexivity |]. intros o1 _. unfold wl. simpl.
@@ -177,11 +181,17 @@ Proof.
   - intros i0 o0 e0 E. injection E as <- <- <-. auto.
 Qed.
 
-(* ---- created, line 181 (guarded: no overlap with a get of the same id between its miss and its put) *)
+Lemma exc_none : forall s t, Inv s -> t < s_n s ->
+  t_pc (s_thr s t) <> M956 -> t_pc (s_thr s t) <> SQ314 -> t_pc (s_thr s t) <> Q162 -> t_exc (s_thr s t) = None.
+Proof.
+  intros s t Hinv Ht A B C. destruct (inv_exc s Hinv t Ht) as [X | (_ & [X | [X | X]])]; [assumption | contradiction ..].
+Qed.
+
+(* ---- created: the write under the lock (guarded: the cache has no entry for the new id) *)
 Lemma case_K181 : forall s t, Inv s -> t < s_n s -> t_pc (s_thr s t) = K181 ->
   created_race s t = false ->
   Inv (put_thr (with_strong s (dset (s_strong s) (t_id (s_thr s t)) (self_of (s_thr s t)))) t
-         (finish (s_thr s t) (RObj (self_of (s_thr s t)) (t_id (s_thr s t)) (s_epoch s (t_id (s_thr s t)))))).
+         (set_pc (set_val (s_thr s t) (Some (self_of (s_thr s t))) (s_epoch s (t_id (s_thr s t)))) K181r)).
 Proof.
   intros s t Hinv Ht Hpc G.
   destruct (inv_w_thr s Hinv t Ht) as (Rv & Rs & Rl).
@@ -191,29 +201,38 @@ Proof.
   unfold created_race in G.
   destruct (dget (s_strong s) (t_id (s_thr s t))) eqn:G1; [discriminate |].
   destruct (dget (s_weak s) (t_id (s_thr s t))) eqn:G2; [discriminate |].
-  apply negb_false_iff in G. rewrite forallb_forall in G.
   eapply inv_strong_set with (s := s) (t := t) (i := t_id (s_thr s t)) (o := o)
     (new := Some (t_id (s_thr s t), o, s_epoch s (t_id (s_thr s t)))); try reflexivity;
     try assumption; thr_obl s t Hinv Ht Hpc.
   - now apply Rs.
   - apply (inv_selfkey s Hinv t o Ht); [now rewrite Hpc | assumption].
-  - intros x k Hx Hne A E. specialize (G x). rewrite in_seq in G. specialize (G ltac:(lia)).
-    rewrite A, E, Z.eqb_refl in G. simpl in G. rewrite !orb_false_r in G. apply Nat.eqb_eq in G. contradiction.
+  - intros x k Hx Hne A E. apply Hne. eapply two_holders; eauto; [eapply absent_key_holds; eauto | now rewrite Hpc].
   - left. unfold mov_of. now rewrite Hpc.
-  - simpl. intros o1 i1 e1 H. apply in_app_or in H. destruct H as [H | [H | []]]; [eapply Rl; eauto |].
-    injection H as <- _ _. now apply Rs.
-  - intros o1 _. unfold wl. simpl. rewrite Hpc. simpl. split; intros (A & _); discriminate.
-  - simpl. intros x H. apply in_app_or in H. destruct H as [H | [H | []]]; [| discriminate].
-    exact (inv_noexc s Hinv t x Ht H).
-  - intros i o1 e H. apply hold_th_finish in H. destruct H as [H | H]; [left; now left | right; congruence].
+  - simpl. intros o1 _ E. injection E as <-. apply (inv_selfkey s Hinv t o Ht); [now rewrite Hpc | assumption].
+  - intros i o1 e [A | A]; [left; now left |]. right. unfold inflight in A. simpl in A.
+    destruct (t_exc (s_thr s t)); [discriminate | exact A].
   - intros i0 o0 e0 E. injection E as <- <- <-. auto.
 Qed.
 
-
-Lemma exc_none : forall s t, Inv s -> t < s_n s ->
-  t_pc (s_thr s t) <> M956 -> t_pc (s_thr s t) <> SQ314 -> t_pc (s_thr s t) <> Q162 -> t_exc (s_thr s t) = None.
+(* ---- created: release, and the constructor returns *)
+Lemma case_K181r : forall s t, Inv s -> t < s_n s -> t_pc (s_thr s t) = K181r ->
+  Inv (put_thr (with_lock s None) t
+         (finish (s_thr s t)
+            (match t_val (s_thr s t) with
+             | Some o => RObj o (t_id (s_thr s t)) (t_ep (s_thr s t)) | None => RNone end))).
 Proof.
-  intros s t Hinv Ht A B C. destruct (inv_exc s Hinv t Ht) as [X | (_ & [X | [X | X]])]; [assumption | contradiction ..].
+  intros s t Hinv Ht Hpc.
+  assert (X : t_exc (s_thr s t) = None) by (apply exc_none; try assumption; rewrite Hpc; discriminate).
+  eapply inv_finish with (s := s) (t := t); try reflexivity; try assumption;
+    try (match goal with |- xwinpc _ = false => first [rewrite Hpc; reflexivity | destruct Hpc as [-> | ->]; reflexivity] end).
+  - intros o1 _. reflexivity.
+  - apply lc_release; [now rewrite Hpc | reflexivity | reflexivity].
+  - apply wc_same; [reflexivity |]. intros o1 _. unfold wl. simpl. rewrite Hpc. simpl.
+    split; intros (A & _); discriminate.
+  - unfold mov_of. now rewrite Hpc.
+  - destruct (t_val (s_thr s t)) as [o |] eqn:V; [| exact I].
+    split; [destruct (inv_w_thr s Hinv t Ht) as (Rv & _); now apply Rv |].
+    left. unfold inflight. now rewrite Hpc, X, V.
 Qed.
 
 (* ---- SQLObject.get after a miss: construct the instance and load the row *)
@@ -236,6 +255,7 @@ Proof.
   - simpl. intros o i e H. specialize (Rl o i e H). lia.
   - pose proof (inv_w_cobj s Hinv t Ht) as Rc. unfold ref_ok in *. simpl. intros x E. specialize (Rc x E). lia.
   - simpl. intros o _ E. injection E as <-. now rewrite upd_same.
+  - simpl. intros o X. pose proof (inv_w_all s Hinv t o Ht X). lia.
   - intros i o e [A | A]; [left; now left |]. unfold inflight in A. simpl in A. discriminate.
 Qed.
 
@@ -259,7 +279,8 @@ Lemma case_Q162 : forall s t, Inv s -> t < s_n s -> t_pc (s_thr s t) = Q162 ->
              end))).
 Proof.
   intros s t Hinv Ht Hpc.
-  eapply inv_finish with (s := s) (t := t); try reflexivity; try assumption.
+  eapply inv_finish with (s := s) (t := t); try reflexivity; try assumption;
+    try (match goal with |- xwinpc _ = false => first [rewrite Hpc; reflexivity | destruct Hpc as [-> | ->]; reflexivity] end).
   - intros o1 _. reflexivity.
   - apply lc_release; [now rewrite Hpc | reflexivity | reflexivity].
   - apply wc_same; [reflexivity |]. intros o1 _. unfold wl. simpl. rewrite Hpc. simpl.
@@ -292,6 +313,7 @@ Proof.
   - simpl. intros o i e H. specialize (Rl o i e H). lia.
   - pose proof (inv_w_cobj s Hinv t Ht) as Rc. unfold ref_ok in *. simpl. intros x E. specialize (Rc x E). lia.
   - simpl. intros o _ E. injection E as <-. now rewrite upd_same.
+  - simpl. intros o X. pose proof (inv_w_all s Hinv t o Ht X). lia.
   - intros i o e [A | A]; [left; now left |]. unfold inflight in A. simpl in A. discriminate.
 Qed.
 
@@ -311,7 +333,8 @@ Lemma case_X1070_expired : forall s t, Inv s -> t < s_n s -> t_pc (s_thr s t) = 
   Inv (put_thr s t (finish (s_thr s t) RNone)).
 Proof.
   intros s t Hinv Ht Hpc.
-  eapply inv_finish with (s := s) (t := t); try reflexivity; try assumption.
+  eapply inv_finish with (s := s) (t := t); try reflexivity; try assumption;
+    try (match goal with |- xwinpc _ = false => first [rewrite Hpc; reflexivity | destruct Hpc as [-> | ->]; reflexivity] end).
   - intros o1 _. reflexivity.
   - apply lc_same; [reflexivity | simpl; now rewrite Hpc].
   - apply wc_same; [reflexivity |]. intros o1 _. unfold wl. simpl. rewrite Hpc. simpl.
@@ -341,7 +364,8 @@ Lemma case_X1070_expired_idle : forall s t, Inv s -> t < s_n s -> t_pc (s_thr s 
   Inv (put_thr s t (finish (s_thr s t) RNone)).
 Proof.
   intros s t Hinv Ht Hpc.
-  eapply inv_finish with (s := s) (t := t); try reflexivity; try assumption.
+  eapply inv_finish with (s := s) (t := t); try reflexivity; try assumption;
+    try (match goal with |- xwinpc _ = false => first [rewrite Hpc; reflexivity | destruct Hpc as [-> | ->]; reflexivity] end).
   - intros o1 _. reflexivity.
   - apply lc_same; [reflexivity | simpl; now rewrite Hpc].
   - apply wc_same; [reflexivity |]. intros o1 _. unfold wl. simpl. rewrite Hpc. simpl.
@@ -379,7 +403,8 @@ Lemma case_X1083 : forall s t, Inv s -> t < s_n s -> t_pc (s_thr s t) = X1083 ->
 Proof.
   intros s t Hinv Ht Hpc.
   destruct (self_some s t X1083 Hinv Ht Hpc eq_refl) as (o0 & So & Eo & Ho). rewrite Eo in *.
-  eapply inv_finish with (s := s) (t := t); try reflexivity; try assumption.
+  eapply inv_finish with (s := s) (t := t); try reflexivity; try assumption;
+    try (match goal with |- xwinpc _ = false => first [rewrite Hpc; reflexivity | destruct Hpc as [-> | ->]; reflexivity] end).
   - intros o _. simpl. unfold set_obj_wlock, upd. destruct (Nat.eqb o o0) eqn:E; [apply Nat.eqb_eq in E; subst |]; reflexivity.
   - apply lc_same; [reflexivity | simpl; now rewrite Hpc].
   - apply wc_release with (o0 := o0).
@@ -520,7 +545,7 @@ Proof.
   - intros k D. unfold deadw in D. simpl in D. injection D as <-. split; [congruence |].
     intros o1. split; [| reflexivity]. intros H.
     pose proof (inv_reg s Hinv _ _ H) as [R | [R | (x & Hx & R)]].
-    + assert (dget (s_weak s) (t_key (s_thr s t)) = None) by (apply (inv_disj s Hinv); congruence). congruence.
+    + assert (dget (s_weak s) (t_key (s_thr s t)) = None) by (eapply (disj_strict s t Hinv Ht); eauto; now rewrite Hpc). congruence.
     + assert (o1 = o) by congruence. subst. apply holder_alive in H. congruence.
     + destruct (mov_core s x _ _ Hinv Hx R) as (Hh & _). apply Hx_t in Hh; [| assumption]. subst x.
       unfold mov_of in R. rewrite Hpc in R. discriminate.
@@ -537,7 +562,8 @@ Ltac locked_common s t Hinv Ht Hpc :=
   | |- forall o i e, In (RObj o i e) _ -> _ => simpl; exact (proj2 (proj2 (inv_w_thr s Hinv t Ht)))
   | |- forall o, o < _ -> (wl _ o <-> wl _ o) => intros ? _; unfold wl; simpl; rewrite ?Hpc; simpl; tauto
   | |- t_exc _ = None => simpl; apply exc_none; try assumption; rewrite Hpc; discriminate
-  | |- t_mex _ = false => simpl; exact (proj2 (inv_scope s Hinv t Ht))
+  | |- forall o, In o (t_all _) \/ _ -> _ => simpl; intros ? HH; exact (inv_w_all s Hinv t _ Ht HH)
+  | |- iter_ok _ _ _ _ _ => try (apply iter_ok_none; reflexivity)
   | |- t_pc _ <> F121 => simpl; discriminate
   | |- _ => try reflexivity
   end.
@@ -559,7 +585,7 @@ Proof.
   - simpl. intros k o H. eapply inv_key_weak; eauto. eapply dget_ddel_some; eauto.
   - simpl. apply (inv_nodup_strong s Hinv).
   - simpl. now apply nodup_ddel.
-  - simpl. intros k H. apply dget_ddel_none. now apply (inv_disj s Hinv).
+  - simpl. intros k o1 H. left. apply dget_ddel_none. eapply (disj_strict s t Hinv Ht); eauto; now rewrite Hpc.
   - intros i o Hh [A | [A | (x & Hx & A)]].
     + left. exact A.
     + destruct (Z.eq_dec i (t_key (s_thr s t))) as [-> | Hne]; [exfalso; exact (Q o Hh) |].
@@ -629,7 +655,7 @@ Proof.
   destruct (B eq_refl) as (o & B1 & B2 & B3). specialize (B3 eq_refl).
   destruct (D eq_refl) as (D1 & D2 & _ & D4). specialize (D4 eq_refl).
   assert (Ns : NoDup (dkeys (s_strong s))) by apply (inv_nodup_strong s Hinv).
-  assert (Wn : dget (s_weak s) (t_key (s_thr s t)) = None) by (apply (inv_disj s Hinv); congruence).
+  assert (Wn : dget (s_weak s) (t_key (s_thr s t)) = None) by (eapply (disj_strict s t Hinv Ht); eauto; now rewrite Hpc).
   eapply inv_locked_dict with (s := s) (t := t); try reflexivity; locked_common s t Hinv Ht Hpc.
   - simpl. intros k o1 H. eapply inv_w_strong; eauto. eapply dget_ddel_some; eauto.
   - simpl. apply (inv_w_weak s Hinv).
@@ -637,7 +663,7 @@ Proof.
   - simpl. apply (inv_key_weak s Hinv).
   - simpl. now apply nodup_ddel.
   - simpl. apply (inv_nodup_weak s Hinv).
-  - simpl. intros k H. apply (inv_disj s Hinv). intros X. apply H. now apply dget_ddel_none.
+  - simpl. intros k o1 H. left. eapply (disj_strict s t Hinv Ht); [now rewrite Hpc | now rewrite Hpc | eapply dget_ddel_some; eauto].
   - intros i o1 Hh [A | [A | (x & Hx & A)]].
     + destruct (Z.eq_dec i (t_key (s_thr s t))) as [-> | Hne].
       * assert (o1 = o) by congruence. subst o1. right. right. exists t. split; [assumption |].
@@ -696,8 +722,8 @@ Proof.
     + rewrite dget_dset_other in H by assumption. eapply inv_key_weak; eauto.
   - simpl. apply (inv_nodup_strong s Hinv).
   - simpl. apply nodup_dset. apply (inv_nodup_weak s Hinv).
-  - simpl. intros k H. destruct (Z.eq_dec k (t_key (s_thr s t))) as [-> | Hne]; [congruence |].
-    rewrite dget_dset_other by assumption. now apply (inv_disj s Hinv).
+  - simpl. intros k o1 H. left. destruct (Z.eq_dec k (t_key (s_thr s t))) as [-> | Hne]; [congruence |].
+    rewrite dget_dset_other by assumption. eapply (disj_strict s t Hinv Ht); eauto; now rewrite Hpc.
   - intros i o1 Hh [X | [X | (x & Hx & X)]].
     + left. exact X.
     + right. left. simpl. rewrite dget_dset_other; [assumption | congruence].
@@ -714,7 +740,7 @@ Qed.
 (* line 216: release; cull returns into get (line 104) or created (line 181) *)
 Lemma case_U216 : forall s t, Inv s -> t < s_n s -> t_pc (s_thr s t) = U216 ->
   Inv (put_thr (with_lock s None) t
-         (set_pc (set_cobj (s_thr s t) None) (match t_cret (s_thr s t) with RetGet => F104 | RetCreated => K181 end))).
+         (set_pc (set_cobj (s_thr s t) None) (match t_cret (s_thr s t) with RetGet => F104 | RetCreated => K181a end))).
 Proof.
   intros s t Hinv Ht Hpc. destruct (cull_parts s t Hinv Ht) as (_ & _ & _ & _ & E). rewrite Hpc in E.
   destruct (t_cret (s_thr s t)) eqn:R;
@@ -768,6 +794,227 @@ Proof.
     apply in_drop_slot in H. destruct H as [H | H]; [exact (inv_noexc s Hinv t x Ht H) | discriminate].
   - intros i o e H. apply hold_th_finish in H. destruct H as [H | H]; [| discriminate].
     simpl in H. apply in_drop_slot in H. destruct H as [H | H]; [left; now left | discriminate].
+Qed.
+
+(* ------------------------------------------------------------------ CacheFactory.expireAll *)
+Lemma iter_parts : forall s t, Inv s -> t < s_n s ->
+  iter_ok (s_strong s) (s_weak s) (s_sver s) (s_wver s) (s_thr s t).
+Proof. intros. now apply inv_iter. Qed.
+
+Lemma hold_th_nontagged : forall th th' i o e,
+  hold_th th' i o e -> t_slots th' = t_slots th -> tagged (t_pc th') = false ->
+  hold_th th i o e \/ @None (Z * nat * nat) = Some (i, o, e).
+Proof.
+  intros th th' i o e [A | A] Hs Ht; [left; left; now rewrite <- Hs |].
+  unfold inflight in A. rewrite Ht in A. discriminate.
+Qed.
+
+(* line 251 -> 252: the iterator is created by the first next() *)
+Lemma case_A251 : forall s t, Inv s -> t < s_n s -> t_pc (s_thr s t) = A251 ->
+  Inv (put_thr s t (set_pc (set_iter (s_thr s t) None) A252)).
+Proof.
+  intros s t Hinv Ht Hpc.
+  eapply inv_thr_step with (s := s) (t := t) (new := None); try reflexivity; thr_obl s t Hinv Ht Hpc.
+  - unfold iter_ok. simpl. repeat split; try discriminate; try (intros [X | [X | [X | X]]]; discriminate).
+  - intros i o e H. exact (hold_th_nontagged (s_thr s t) _ i o e H eq_refl eq_refl).
+Qed.
+
+(* line 252: for key, value in self.cache.items() -- an item *)
+Lemma case_A252_item : forall s t pos k o, Inv s -> t < s_n s -> t_pc (s_thr s t) = A252 ->
+  iter_next (t_iter (s_thr s t)) (length (s_strong s)) (s_sver s) = Some (inl pos) ->
+  nth_error (s_strong s) pos = Some (k, o) ->
+  Inv (put_thr s t (set_pc (set_iter (set_key (set_val (s_thr s t) (Some o) (t_ep (s_thr s t))) k)
+                                     (iter_adv (t_iter (s_thr s t)) (length (s_strong s)) (s_sver s))) A253)).
+Proof.
+  intros s t pos k o Hinv Ht Hpc Hn Hnth.
+  destruct (iter_parts s t Hinv Ht) as (I1 & _). specialize (I1 Hpc).
+  assert (Ho : o < s_nextobj s).
+  { eapply inv_w_strong; eauto. eapply nth_dget; eauto. apply (inv_nodup_strong s Hinv). }
+  eapply inv_thr_step with (s := s) (t := t) (new := None); try reflexivity; thr_obl s t Hinv Ht Hpc.
+  - unfold ref_ok. simpl. intros x E. injection E as <-. assumption.
+  - unfold iter_ok. simpl. repeat split; try discriminate; try (intros [X | [X | [X | X]]]; discriminate).
+    intros _. unfold iter_next, iter_adv in *. destruct (t_iter (s_thr s t)) as [[[p sz] v] |].
+    + destruct I1 as (-> & -> & C). rewrite Nat.eqb_refl in Hn. simpl in Hn. rewrite Nat.eqb_refl in Hn. simpl in Hn.
+      destruct (Nat.ltb p (length (s_strong s))); inversion Hn; subst.
+      exists pos, (length (s_strong s)), (s_sver s), o. repeat split; auto.
+    + destruct (Nat.ltb 0 (length (s_strong s))); inversion Hn; subst.
+      exists 0, (length (s_strong s)), (s_sver s), o. repeat split; auto. intros j k' o' Hj. lia.
+  - intros i o1 e H. exact (hold_th_nontagged (s_thr s t) _ i o1 e H eq_refl eq_refl).
+Qed.
+
+(* ... exhausted *)
+Lemma case_A252_end : forall s t, Inv s -> t < s_n s -> t_pc (s_thr s t) = A252 ->
+  iter_next (t_iter (s_thr s t)) (length (s_strong s)) (s_sver s) = Some (inr false) ->
+  Inv (put_thr s t (set_pc (set_iter (s_thr s t) None) A254)).
+Proof.
+  intros s t Hinv Ht Hpc Hn.
+  destruct (iter_parts s t Hinv Ht) as (I1 & _). specialize (I1 Hpc).
+  eapply inv_thr_step with (s := s) (t := t) (new := None); try reflexivity; thr_obl s t Hinv Ht Hpc.
+  - unfold iter_ok. simpl. repeat split; try discriminate; try (intros [X | [X | [X | X]]]; discriminate).
+    intros _. unfold iter_next in Hn. destruct (t_iter (s_thr s t)) as [[[p sz] v] |].
+    + destruct I1 as (-> & -> & C). rewrite Nat.eqb_refl in Hn. simpl in Hn. rewrite Nat.eqb_refl in Hn. simpl in Hn.
+      destruct (Nat.ltb p (length (s_strong s))) eqn:L; [discriminate |]. apply Nat.ltb_ge in L.
+      intros j k o Hj Hnth. apply (C j k o); [lia | assumption].
+    + destruct (Nat.ltb 0 (length (s_strong s))) eqn:L; [discriminate |]. apply Nat.ltb_ge in L.
+      intros j k o Hj. lia.
+  - intros i o1 e H. exact (hold_th_nontagged (s_thr s t) _ i o1 e H eq_refl eq_refl).
+Qed.
+
+(* the iterator never fails: nobody else writes the strong dict while the lock is held *)
+Lemma A252_no_error : forall s t, Inv s -> t < s_n s -> t_pc (s_thr s t) = A252 ->
+  exists r, iter_next (t_iter (s_thr s t)) (length (s_strong s)) (s_sver s) = Some r /\ r <> inr true.
+Proof.
+  intros s t Hinv Ht Hpc. destruct (iter_parts s t Hinv Ht) as (I1 & _). specialize (I1 Hpc).
+  unfold iter_next. destruct (t_iter (s_thr s t)) as [[[p sz] v] |].
+  - destruct I1 as (-> & -> & _). rewrite !Nat.eqb_refl. simpl.
+    destruct (Nat.ltb p (length (s_strong s))); eexists; split; try reflexivity; discriminate.
+  - destruct (Nat.ltb 0 (length (s_strong s))); eexists; split; try reflexivity; discriminate.
+Qed.
+
+Lemma iter_next_lt : forall it len ver pos, iter_next it len ver = Some (inl pos) -> pos < len.
+Proof.
+  intros it len ver pos H. unfold iter_next in H. destruct it as [[[p sz] v] |].
+  - destruct (negb (Nat.eqb len sz)); [discriminate |]. destruct (negb (Nat.eqb ver v)); [discriminate |].
+    destruct (Nat.ltb p len) eqn:L; inversion H; subst. now apply Nat.ltb_lt.
+  - destruct (Nat.ltb 0 len) eqn:L; inversion H; subst. now apply Nat.ltb_lt.
+Qed.
+
+
+(* line 253: self.expiredCache[key] = ref(value) *)
+Lemma case_A253 : forall s t o, Inv s -> t < s_n s -> t_pc (s_thr s t) = A253 ->
+  t_val (s_thr s t) = Some o ->
+  Inv (put_thr (with_weak s (dset (s_weak s) (t_key (s_thr s t)) o)) t (set_pc (s_thr s t) A252)).
+Proof.
+  intros s t o Hinv Ht Hpc V.
+  destruct (iter_parts s t Hinv Ht) as (_ & I2 & _). destruct (I2 Hpc) as (pos & sz & v & o' & It & Esz & Ev & C & Hnth & V').
+  assert (o' = o) by congruence. subst o'.
+  assert (Ns : NoDup (dkeys (s_strong s))) by apply (inv_nodup_strong s Hinv).
+  assert (Sk : dget (s_strong s) (t_key (s_thr s t)) = Some o) by (eapply nth_dget; eauto).
+  assert (Ho : o < s_nextobj s) by (eapply inv_w_strong; eauto).
+  eapply inv_locked_dict with (s := s) (t := t); try reflexivity; locked_common s t Hinv Ht Hpc.
+  - simpl. apply (inv_w_strong s Hinv).
+  - simpl. intros k o1 H. destruct (Z.eq_dec k (t_key (s_thr s t))) as [-> | Hne].
+    + rewrite dget_dset_same in H. injection H as <-. assumption.
+    + rewrite dget_dset_other in H by assumption. eapply inv_w_weak; eauto.
+  - simpl. apply (inv_key_strong s Hinv).
+  - simpl. intros k o1 H. destruct (Z.eq_dec k (t_key (s_thr s t))) as [-> | Hne].
+    + rewrite dget_dset_same in H. injection H as <-. eapply inv_key_strong; eauto.
+    + rewrite dget_dset_other in H by assumption. eapply inv_key_weak; eauto.
+  - simpl. apply (inv_nodup_strong s Hinv).
+  - simpl. apply nodup_dset. apply (inv_nodup_weak s Hinv).
+  - simpl. intros k o1 H. destruct (Z.eq_dec k (t_key (s_thr s t))) as [-> | Hne].
+    + right. split; [| reflexivity]. rewrite dget_dset_same. congruence.
+    + rewrite dget_dset_other by assumption.
+      destruct (inv_disj s Hinv k o1 H) as [A | (A & _)]; [now left | right; split; [assumption | reflexivity]].
+  - intros i o1 Hh [X | [X | (x & Hx & X)]].
+    + left. exact X.
+    + right. left. simpl. destruct (Z.eq_dec i (t_key (s_thr s t))) as [-> | Hne].
+      * rewrite dget_dset_same. destruct (inv_disj s Hinv _ _ Sk) as [A | (A & _)]; congruence.
+      * now rewrite dget_dset_other.
+    + destruct (Nat.eq_dec x t) as [-> | Hne]; [unfold mov_of in X; rewrite Hpc in X; discriminate |].
+      right. right. exists x. split; [assumption |]. simpl. now rewrite upd_other.
+  - unfold ref_ok. simpl. exact (inv_w_cobj s Hinv t Ht).
+  - simpl. apply cull_ok_none. reflexivity.
+  - unfold iter_ok. simpl. repeat split; try discriminate; try (intros [X | [X | [X | X]]]; discriminate).
+    intros _. rewrite It. repeat split; try assumption.
+    intros j k o1 Hj Hn'. destruct (Nat.eq_dec j pos) as [-> | Hne].
+    + assert (k = t_key (s_thr s t) /\ o1 = o) by (split; congruence). destruct H as (-> & ->). apply dget_dset_same.
+    + rewrite dget_dset_other.
+      * apply (C j k o1); [lia | assumption].
+      * intros ->. apply Hne. eapply nth_key_inj; eauto.
+Qed.
+
+(* line 254: self.cache = {} *)
+Lemma case_A254 : forall s t, Inv s -> t < s_n s -> t_pc (s_thr s t) = A254 ->
+  Inv (put_thr (with_strong s []) t (set_pc (s_thr s t) A256)).
+Proof.
+  intros s t Hinv Ht Hpc.
+  destruct (iter_parts s t Hinv Ht) as (_ & _ & I3 & _). specialize (I3 Hpc).
+  eapply inv_locked_dict with (s := s) (t := t); try reflexivity; locked_common s t Hinv Ht Hpc.
+  - simpl. discriminate.
+  - simpl. apply (inv_w_weak s Hinv).
+  - simpl. discriminate.
+  - simpl. apply (inv_key_weak s Hinv).
+  - simpl. constructor.
+  - simpl. apply (inv_nodup_weak s Hinv).
+  - simpl. discriminate.
+  - intros i o1 Hh [X | [X | (x & Hx & X)]].
+    + right. left. simpl. destruct (dget_nth _ _ _ X) as (j & Hj & Hn). now apply (I3 j i o1).
+    + right. left. exact X.
+    + destruct (Nat.eq_dec x t) as [-> | Hne]; [unfold mov_of in X; rewrite Hpc in X; discriminate |].
+      right. right. exists x. split; [assumption |]. simpl. now rewrite upd_other.
+  - unfold ref_ok. simpl. exact (inv_w_cobj s Hinv t Ht).
+  - simpl. apply cull_ok_none. reflexivity.
+Qed.
+
+(* line 256: release; expireAll returns *)
+Lemma case_A256_op : forall s t, Inv s -> t < s_n s -> t_pc (s_thr s t) = A256 ->
+  Inv (put_thr (with_lock s None) t (finish (s_thr s t) RNone)).
+Proof.
+  intros s t Hinv Ht Hpc.
+  eapply inv_finish with (s := s) (t := t); try reflexivity; try assumption;
+    try (match goal with |- xwinpc _ = false => rewrite Hpc; reflexivity end).
+  - intros o1 _. reflexivity.
+  - apply lc_release; [now rewrite Hpc | reflexivity | reflexivity].
+  - apply wc_same; [reflexivity |]. intros o1 _. unfold wl. simpl. rewrite Hpc. simpl.
+    split; intros (A & _); discriminate.
+  - unfold mov_of. now rewrite Hpc.
+Qed.
+
+Lemma case_A256_mex : forall s t, Inv s -> t < s_n s -> t_pc (s_thr s t) = A256 ->
+  Inv (put_thr (with_lock s None) t (set_pc (set_val (s_thr s t) None 0) Z682)).
+Proof.
+  intros s t Hinv Ht Hpc.
+  eapply inv_thr_step with (s := s) (t := t) (new := None); try reflexivity; thr_obl s t Hinv Ht Hpc.
+  - apply lc_release; [now rewrite Hpc | reflexivity | reflexivity].
+  - intros i o e H. exact (hold_th_nontagged (s_thr s t) _ i o e H eq_refl eq_refl).
+Qed.
+
+(* a thread-only step that keeps the locals the invariant looks at *)
+Lemma case_local : forall s t th', Inv s -> t < s_n s ->
+  t_slots th' = t_slots (s_thr s t) -> t_val th' = t_val (s_thr s t) -> t_self th' = t_self (s_thr s t) ->
+  t_cobj th' = t_cobj (s_thr s t) -> t_all th' = t_all (s_thr s t) -> t_items th' = t_items (s_thr s t) ->
+  t_exc th' = t_exc (s_thr s t) ->
+  holds (t_pc th') = false -> holds (t_pc (s_thr s t)) = false ->
+  wholds (t_pc th') = false -> wholds (t_pc (s_thr s t)) = false ->
+  tagged (t_pc th') = false -> valdef (t_pc th') = false -> selfdef (t_pc th') = false -> creating (t_pc th') = false ->
+  t_exc (s_thr s t) = None ->
+  Inv (put_thr s t th').
+Proof.
+  intros s t th' Hinv Ht Hs Hv Hse Hc Ha Hi He H1 H2 H3 H4 H5 H6 H7 H8 H9.
+  destruct (inv_w_thr s Hinv t Ht) as (Rv & Rs & Rl).
+  assert (Nsab : sabs (t_pc th') = false) by (destruct (t_pc th'); simpl in *; try discriminate; reflexivity).
+  assert (Nwab : wabs (t_pc th') = false) by (destruct (t_pc th'); simpl in *; try discriminate; reflexivity).
+  eapply inv_thr_step with (s := s) (t := t) (new := None); try reflexivity; try assumption.
+  - apply lc_same; [reflexivity | congruence].
+  - apply le_n.
+  - intros o _. reflexivity.
+  - apply wc_same; [reflexivity |]. intros o _. unfold wl. rewrite H3, H4. split; intros (A & _); discriminate.
+  - intros o A B. simpl in B. lia.
+  - now rewrite Hv.
+  - now rewrite Hse.
+  - rewrite Hs. exact Rl.
+  - rewrite Hc. exact (inv_w_cobj s Hinv t Ht).
+  - apply cull_ok_none. destruct (t_pc th'); simpl in *; try discriminate; reflexivity.
+  - congruence.
+  - congruence.
+  - congruence.
+  - rewrite H6, H5. discriminate.
+  - congruence.
+  - congruence.
+  - left. congruence.
+  - rewrite Hs. intros x X. exact (inv_noexc s Hinv t x Ht X).
+  - reflexivity.
+  - rewrite Ha, Hi. intros o X. exact (inv_w_all s Hinv t o Ht X).
+  - apply iter_ok_none. destruct (t_pc th'); simpl in *; try discriminate; reflexivity.
+  - intros X. exfalso. destruct (t_pc (s_thr s t)); simpl in *; discriminate.
+  - left. unfold mov_of. destruct (t_pc th') eqn:E1; simpl in *; try discriminate;
+      destruct (t_pc (s_thr s t)) eqn:E2; simpl in *; try discriminate; reflexivity.
+  - intros i o e X. eapply hold_th_nontagged; eauto.
+  - discriminate.
+  - discriminate.
+  - intros o X. exfalso. rewrite X in H1. discriminate.
+  - intros k X. exfalso. apply deadw_holds in X. congruence.
 Qed.
 
 (* ------------------------------------------------------------------ the step lemma *)
@@ -858,7 +1105,11 @@ Proof.
     assert (L : s_lock s = Some t) by (apply (inv_lock s Hinv t Hlt); rewrite Hpc; reflexivity);
     rewrite L in Hstep; inversion Hstep; subst; now apply case_Q162
   | _ = C1397 => unfold goto in Hstep; inversion Hstep; subst; now apply case_C1397
-  | _ = K181 => inversion Hstep; subst; apply case_K181; try assumption; now apply negb_true_iff
+  | _ = K181 => unfold goto in Hstep; inversion Hstep; subst; apply case_K181; try assumption; now apply negb_true_iff
+  | _ = K181r =>
+    unfold release in Hstep;
+    assert (L : s_lock s = Some t) by (apply (inv_lock s Hinv t Hlt); rewrite Hpc; reflexivity);
+    rewrite L in Hstep; inversion Hstep; subst; now apply case_K181r
   | _ = X1070 =>
     destruct (o_expired (s_heap s (self_of (s_thr s t))));
     [ unfold expire_return in Hstep; rewrite Hmex in Hstep; inversion Hstep; subst; now apply case_X1070_expired
